@@ -96,7 +96,10 @@ func runC06E2E(t *Trace, r *Rng, tier string) {
 		idx := newIndexWith(engine, e2eMapping(fields))
 		nDocs := r.Range(4, 30)
 		docs := make([]e2eDoc, nDocs)
-		words := []string{"a", "b", "ab", "c", "zz", "m"}
+		// besides plain words: strings that happen to look like prefix-coded numeric terms (first byte 0x20..0x5f and
+		// the matching length) with shift > 0: the auto sort type inspects exactly that. (A shift-0 lookalike is left out:
+		// sorted "as date" it would have to be given back to SearchAfter as a date string, which it is not.)
+		words := []string{"a", "b", "ab", "c", "zz", "m", "20240105", "Boston", "6543210", "20231231"}
 		batch := idx.NewBatch()
 		for i := range docs {
 			d := e2eDoc{id: fmt.Sprintf("d%03d", i), vals: map[string][]interface{}{}}
